@@ -14,8 +14,8 @@ TABLES = ["DEFAULT", "STANDARD", "PROKARYOTE"]
 SEQTYPES = ["chromosome", "sequence_chunk", "contig", "region", "nonexistent"]
 
 
-# operations whose answer is an iterator (probed against the library; `./vcheck selftest reach` fails if a listed
-# operation never produced a cursor)
+# operations whose answer is an iterator (probed against the library; an operation listed here that does not answer
+# with an iterator is simply evaluated as an ordinary call)
 ITER_OPS = {
     "cds": {"blocks", "relative_blocks", "scan_chromosome_codon_locations", "scan_chunk_relative_codon_locations", "scan_codons",
             "scan_codons(trunc)", "scan_codon_locations", "to_gff", "to_gff(parent,pq)"},
